@@ -128,11 +128,11 @@ func cut(m []byte, n int) []byte {
 	return m
 }
 
-const ruleBridge = "rapid-drawn history over one test.Bridge with a collecting reader on each endpoint (reader buffer 4 or 4096 bytes): write(dir, 0 or 4..2000 bytes, class byte for the filter), DropNextNWrites(0..3), ReorderNextNWrites(1..4, also repeatedly), Drop(offset<=len, n), Reorder, Filter(reject class k | nil), Tick, Process; a model applies the script (drop counter, then reorder batch, then filter) to two queues; after every Process the readers must have received exactly the model's sequence (cut to the reader's buffer), and over the whole run nothing is duplicated or invented; where the documentation leaves the combination unspecified (drop counter and reorder batch both armed, filter vs withheld message, re-arming a half-filled batch) the direction falls back to the weak oracle (sub-multiset, integrity) only; non-trivial = >=2 completed reorder batches on one direction, or a reorder batch combined with drop/filter/Drop/Reorder; distinct by hash of the step list"
+const ruleBridge = "rapid-drawn history over one test.Bridge with a collecting reader on each endpoint (reader buffer 4 or 4096 bytes): write(dir, 0 or 4..2000 bytes, class byte for the filter), DropNextNWrites(0..3), ReorderNextNWrites(1..4, also repeatedly), Drop(offset<=len, n), Reorder, Filter(reject class k | nil), Tick, Process; in a quarter of the histories the readers start at a drawn later step and every Tick before that must return 0 and leave both queues as they are; a model applies the script (drop counter, then reorder batch, then filter) to two queues; after every Process the readers must have received exactly the model's sequence (cut to the reader's buffer), and over the whole run nothing is duplicated or invented; where the documentation leaves the combination unspecified (drop counter and reorder batch both armed, filter vs withheld message, re-arming a half-filled batch) the direction falls back to the weak oracle (sub-multiset, integrity) only; non-trivial = >=2 completed reorder batches on one direction, or a reorder batch combined with drop/filter/Drop/Reorder; distinct by hash of the step list"
 
 func TestC18Bridge(t *testing.T) {
 	r := ev.New("C18", "bridge", ruleBridge)
-	r.Essential = []string{"reorder-batches>=2", "reorder/n=1", "op/Drop", "op/Reorder", "op/Filter", "truncating-reader"}
+	r.Essential = []string{"reorder-batches>=2", "reorder/n=1", "op/Drop", "op/Reorder", "op/Filter", "truncating-reader", "idle-tick", "readers-started-late"}
 	r.MinForEssential = 300
 	r.Check(t, func(t *rapid.T, c *ev.Case) {
 		br := test.NewBridge()
@@ -145,7 +145,30 @@ func TestC18Bridge(t *testing.T) {
 		}
 		conns := [2]net.Conn{br.GetConn0(), br.GetConn1()}
 		// dir d: written on conn d, read on conn 1-d
-		cols := [2]*collector{startReader(conns[1], bufSize[1]), startReader(conns[0], bufSize[0])}
+		// In a quarter of the histories nobody reads at first: "If there's no reader, it [Tick]
+		// will return immediately" - it hands nothing over and the queues stay as they are, so
+		// that Drop and Reorder still act on the messages the test sees queued. The collecting
+		// readers start at a drawn step.
+		var cols [2]*collector
+		startReaders := func() {
+			if cols[0] == nil {
+				cols = [2]*collector{startReader(conns[1], bufSize[1]), startReader(conns[0], bufSize[0])}
+			}
+		}
+		lateAt := -1
+		if rapid.IntRange(0, 3).Draw(t, "lateReaders") == 0 {
+			lateAt = rapid.IntRange(1, 30).Draw(t, "lateAt")
+		} else {
+			startReaders()
+		}
+		idleTick := func(step int) {
+			before := [2]int{br.Len(0), br.Len(1)}
+			k := br.Tick()
+			if k != 0 || br.Len(0) != before[0] || br.Len(1) != before[1] {
+				t.Fatalf("C18: step %d: Tick with no reader waiting on either endpoint returned %d and changed the queue lengths from %v to [%d %d]; it must hand nothing over", step, k, before, br.Len(0), br.Len(1))
+			}
+			c.Label("idle-tick")
+		}
 		rbuf := [2]int{bufSize[1], bufSize[0]}
 		dm := [2]*dirModel{}
 		for d := range dm {
@@ -155,6 +178,7 @@ func TestC18Bridge(t *testing.T) {
 		serial := 0
 		defer func() {
 			// shut down: drain, close both ends, tick until the readers are gone
+			startReaders()
 			for d := 0; d < 2; d++ {
 				br.Drop(d, 0, br.Len(d))
 			}
@@ -261,6 +285,10 @@ func TestC18Bridge(t *testing.T) {
 
 		n := rapid.IntRange(1, 50).Draw(t, "steps")
 		for i := 0; i < n; i++ {
+			if i == lateAt {
+				startReaders()
+				c.Label("readers-started-late")
+			}
 			d := rapid.IntRange(0, 1).Draw(t, "dir")
 			m := dm[d]
 			switch op := rapid.IntRange(0, 99).Draw(t, "op"); {
@@ -362,6 +390,10 @@ func TestC18Bridge(t *testing.T) {
 				c.Op("Filter dir%d reject-class %d", d, k)
 				c.Label("op/Filter")
 				t.Logf("step %d: Filter(%d, reject class %d)", i, d, k)
+			case cols[0] == nil && op >= 88:
+				idleTick(i)
+				c.Op("idle Tick")
+				t.Logf("step %d: Tick (no reader)", i)
 			case op < 92:
 				deliver("Tick", func() { br.Tick() })
 				c.Op("Tick")
@@ -374,6 +406,7 @@ func TestC18Bridge(t *testing.T) {
 				verify("Process", true)
 			}
 		}
+		startReaders()
 		deliver("final Process", br.Process)
 		verify("final Process", true)
 		// ---- completeness: flush whatever is still withheld and account for every message
@@ -435,7 +468,6 @@ func TestC18Bridge(t *testing.T) {
 		}
 	})
 }
-
 
 // ---- dpipe --------------------------------------------------------------
 
